@@ -212,6 +212,10 @@ class RomFSReader(TypeReaderBase, FS):
                         raise RomFSEntryError(f'Directory entry at {entry_offset:#x} is outside the metadata table')
                     next_sibling_dir = readle(child_dir_meta[0x4:0x8])
                     child_dir_name = dirmeta.read(readle(child_dir_meta[0x14:0x18])).decode('utf-16le')
+                    if not child_dir_name or '/' in child_dir_name:
+                        # '' or '/' as a name makes the directory indistinguishable from its parent ('/a/' + '' is '/a/' again),
+                        # so a walk over the tree would never end
+                        raise RomFSEntryError(f'Directory entry at {entry_offset:#x} has an invalid name {child_dir_name!r}')
                     child_dir_name_meta = child_dir_name.lower() if case_insensitive else child_dir_name
                     if child_dir_name_meta in out['contents']:
                         logger.warning(f'Dirname collision: {current_path}{child_dir_name}')
